@@ -48,7 +48,7 @@ pub fn gen(tier: &str, seed: u64) -> Gen {
         bits.push(v.to_bits());
         bits.push((-v).to_bits());
     }
-    let nrand_f = if thorough { 100_000 } else { 1500 };
+    let nrand_f = if thorough { 20_000 } else { 1500 };
     for _ in 0..nrand_f {
         bits.push(rng.next());
         // also "human" floats
